@@ -866,6 +866,18 @@ def part_saveload(ctx, impl, rng, quick, root):
         data = rand_dataset(rng) if k % 5 else rand_csr(rng)
         cwd_rel, folder = rng.choice([('w', 'bundle'), ('w', 'nested/dir/bundle'), ('w/deep', '{ROOT}/w/abs_bundle'), ('w', './b2')])
         args = dict(root=sub, cwd=cwd_rel, folder=folder, data=data, twice=rng.random() < 0.3, pathlib=rng.random() < 0.3)
+        if k % 4 == 1:
+            # a multi-step history on one folder: a richer dataset (nested Dataset, strings, lists, arrays) was saved there
+            # before; save followed by load must return the LAST dataset and nothing of the earlier one
+            before = rand_dataset(rng)
+            have = {it[0] for it in before['items']}
+            for extra in (['meta', dict(kind='dataset', items=[['name', dict(kind='py', value='old')]])],
+                          ['source', dict(kind='py', value='stale text')],
+                          ['names_old', dict(kind='array', dtype='str', values=['p', 'q'])],
+                          ['history', dict(kind='py', value=[1, 'two', 3.0])]):
+                if extra[0] not in have:
+                    before['items'].append(extra)
+            args['before'] = before
         r = impl.call('c18', 'save_load', args, timeout=60)
         ctx.traces += 1
         case = {k2: v for k2, v in args.items() if k2 != 'root'}
